@@ -25,10 +25,18 @@ type vRef struct {
 
 // vValidatedAC builds: an unrelated entry U (most recently used), the AC entry
 // for hash A, and a symbolic subset of the blobs the ActionResult refers to.
-func vValidatedAC(maxFiles int, withDir bool, withProxy bool) {
-	nFiles := vsym.Choose("files", maxFiles+1)
+func vValidatedAC(maxFiles int, withDir bool, withProxy bool) { vValidatedACX(maxFiles, withDir, withProxy, false) }
+
+// mixed: exactly two output files, the first with inline contents, the second
+// referenced by digest; nothing else.
+func vValidatedACX(maxFiles int, withDir bool, withProxy bool, mixed bool) {
+	nFiles := 2
+	if !mixed {
+		nFiles = vsym.Choose("files", maxFiles+1)
+	}
 	hasStdout, hasStderr := false, false
-	if !withProxy {
+	if mixed {
+	} else if !withProxy {
 		hasStdout = vsym.Choose("stdout", 2) == 1
 		hasStderr = vsym.Choose("stderr", 2) == 1
 	} else {
@@ -65,7 +73,13 @@ func vValidatedAC(maxFiles int, withDir bool, withProxy bool) {
 	ar := &pb.ActionResult{}
 	for i := 0; i < nFiles; i++ {
 		f := &pb.OutputFile{Path: "out/f"}
-		if vsym.Choose("inline", 2) == 1 {
+		inline := false
+		if mixed {
+			inline = i == 0
+		} else {
+			inline = vsym.Choose("inline", 2) == 1
+		}
+		if inline {
 			// inlined contents: the digest is not a dependency
 			f.Contents = []byte{1}
 			f.Digest = &pb.Digest{Hash: vHashD, SizeBytes: 1}
@@ -179,6 +193,7 @@ func vValidatedAC(maxFiles int, withDir bool, withProxy bool) {
 }
 
 func VerifValidatedAC()      { vValidatedAC(1, false, false) }
+func VerifValidatedACMixed() { vValidatedACX(2, false, false, true) }
 func VerifValidatedACDir()   { vValidatedAC(0, true, false) }
 func VerifValidatedAC2()     { vValidatedAC(2, true, false) }
 func VerifValidatedACProxy() { vValidatedAC(1, false, true) }
